@@ -69,8 +69,9 @@ Theorem C16_running_are_recorded : forall d ls s,
 Proof. exact running_are_recorded. Qed.
 
 (* GetServerCount, wherever the model lets it be observed (loop idle or Run finished): no Stop() is
-   in flight and the count is the number of servers started and not stopped, plus the entries that
-   have no server (see C16_serverless_only_after_cancel). *)
+   in flight and the count is the number of servers started and not stopped PLUS the entries that have
+   no server.  The count is therefore EXACT only while the context is not cancelled
+   (C16_serverless_only_after_cancel); after cancellation only the bounds of C16_count_bounds hold. *)
 Theorem C16_count : forall d ls s,
   run (step true) (init d) ls = Some s -> idle_pc (s_pc s) = true ->
   s_stopping s = [] /\
@@ -88,8 +89,10 @@ Proof. exact none_leaked. Qed.
    every entry of the collection has exactly the configuration the last received map gives its id and
    no pending action; every id the map wants is in the collection unless its start failed in that
    round; an entry whose configuration the map did not change is the very entry (same instance) the
-   round started with; an entry without a server exists only if the context was cancelled; and each
-   running instance is recorded, with its id, in the collection. *)
+   round started with; an entry without a server exists only if the context was cancelled; and every
+   RUNNING SERVER INSTANCE (j, id k, created by the factory from configuration c) is the runtime of
+   the entry of its id, that entry carries the configuration c the instance was created from, and c is
+   the configuration the last received map gives k -- each server runs with the given configuration. *)
 Theorem C16_round_converges : forall d ls s,
   run (step true) (init d) ls = Some s -> s_pc s = PIdle ->
   (forall q e, lookup q (s_entries s) = Some e ->
@@ -99,7 +102,8 @@ Theorem C16_round_converges : forall d ls s,
                  lookup k (s_entries s) = Some (set_act ANone old)) /\
   (forall q e, lookup q (s_entries s) = Some e -> e_rt e = None -> s_cancel s = true) /\
   (forall j k c, In (j, (k, c)) (s_live s) ->
-                 exists e, lookup k (s_entries s) = Some e /\ e_rt e = Some j).
+                 exists e, lookup k (s_entries s) = Some e /\ e_rt e = Some j /\ e_cfg e = c /\
+                           dcfg (s_des s) k = Some c).
 Proof. exact round_converges. Qed.
 
 (* Entries without a server exist only after cancellation: while the context is not cancelled, at every
@@ -109,6 +113,13 @@ Theorem C16_serverless_only_after_cancel : forall d ls s,
   no_rt (s_entries s) = [] /\ count (s_entries s) = length (s_live s).
 Proof. exact count_exact_without_cancel. Qed.
 
+(* ... and in every case, cancelled or not: at least the running servers, at most one entry per id of
+   the last received map. *)
+Theorem C16_count_bounds : forall d ls s,
+  run (step true) (init d) ls = Some s -> s_pc s = PIdle ->
+  (length (s_live s) <= count (s_entries s) <= length (s_des s))%nat.
+Proof. exact count_bounds. Qed.
+
 (* Over the history: whenever the factory is called for an id, every instance created earlier for the
    same id has already returned from Stop() (the old server is fully stopped before the replacement
    is started), for every schedule. *)
@@ -117,14 +128,28 @@ Theorem C16_old_stopped_before_replacement : forall d ls1 k c i b ls2 s,
   forall c' j b', In (LFactory k c' j b') ls1 -> In (LStopRet j) ls1.
 Proof. exact old_stopped_before_replacement. Qed.
 
-(* The cluster's own state: whenever the loop is idle the FSM is Running -- whatever happened in the
-   rounds before (factory errors, servers that never became ready, cancelled restart delays): a failed
-   start does not affect the cluster's Running state (and by C16_round_converges not the other
-   entries); once Run has finished it is Stopped. *)
+(* The cluster's own FSM.  The model moves it through the transition table it is created with
+   (fsm_allowed = go-fsm transitions.Typical) and contains the `!IsRunning()` gate of
+   processConfigUpdate ("Ignoring config update - cluster not running"), the failure of
+   Transition(Reloading) (the map is dropped) and the failure of the return to Running
+   (setStateError).  NOT definitional: proved by an invariant over every schedule -- whenever the loop
+   is idle the FSM is Running, whatever failed in the rounds before (factory errors, servers that never
+   became ready, cancelled restart delays); once Run has finished it is Stopped; it is never Error. *)
 Theorem C16_idle_is_running : forall d ls s,
   run (step true) (init d) ls = Some s ->
-  (s_pc s = PIdle -> s_fsm s = CRunning) /\ (s_pc s = PFin \/ s_pc s = PRet -> s_fsm s = CStopped).
+  (s_pc s = PIdle -> s_fsm s = CRunning) /\ (s_pc s = PFin \/ s_pc s = PRet -> s_fsm s = CStopped) /\
+  s_fsm s <> CError.
 Proof. exact (idle_is_running true). Qed.
+
+(* Hence the gate and the error branches are dead code under the Typical table: whenever the loop is
+   idle the guard of the processing branch holds, and a map received from the siphon always becomes the
+   desired map of a round (it is never ignored). *)
+Theorem C16_update_never_ignored : forall d ls s,
+  run (step true) (init d) ls = Some s -> s_pc s = PIdle ->
+  cstate_eqb (s_fsm s) CRunning && fsm_allowed (s_fsm s) CReloading = true /\
+  forall m ord s', s_offer s = Some m -> step true s (LRecv ord) = Some s' ->
+                   s_base s' = s_entries s /\ s_des s' = new_entries m /\ s_offer s' = None.
+Proof. exact (update_never_ignored true). Qed.
 
 (* ---- the legacy planner (fx = false, before dec72e6): refuted (F9) ---- *)
 
@@ -172,6 +197,8 @@ Print Assumptions C16_round_converges.
 Print Assumptions C16_serverless_only_after_cancel.
 Print Assumptions C16_old_stopped_before_replacement.
 Print Assumptions C16_idle_is_running.
+Print Assumptions C16_update_never_ignored.
+Print Assumptions C16_count_bounds.
 Print Assumptions C16_converge_legacy_refuted.
 Print Assumptions C16_none_leaked_legacy_refuted.
 Print Assumptions C16_count_legacy_refuted.
@@ -204,3 +231,84 @@ Example C16_ex_schedule :
   exists s, run (step true) (init false) ex_schedule = Some s /\ s_hyg s = false /\ s_pc s = PRet /\
             s_live s = [] /\ s_next s = 3.
 Proof. eexists. split; [vm_compute; reflexivity|]. repeat split. Qed.
+
+(* ---- every theorem's hypotheses are jointly satisfiable (one Example per hypothesis set) ---- *)
+
+(* planner theorems (C16_plan_order_free, C16_converge): well-formed maps and two iteration orders, with
+   colliding ids; and the premises of each conjunct of C16_converge *)
+Example C16_ex_planner_hyps :
+  NoDup (keys w_cur) /\ NoDup (keys w_des) /\
+  Permutation [id_a; id_a_stop] (keys w_cur) /\ Permutation [id_a_stop; id_a] (keys w_cur) /\
+  (* changed running entry *)
+  (lookup id_a w_cur = Some (mkE id_a 0 (Some 0) ANone) /\ dcfg w_des id_a = Some 1 /\ 0 <> 1) /\
+  (* unchanged entry *)
+  (lookup id_a_stop w_cur = Some (mkE id_a_stop 0 (Some 1) ANone) /\ dcfg w_des id_a_stop = Some 0).
+Proof.
+  split; [vm_compute; repeat constructor; cbn; intuition discriminate|].
+  split; [vm_compute; repeat constructor; cbn; intuition discriminate|].
+  split; [apply Permutation_refl|]. split; [apply perm_swap|]. repeat split; try reflexivity. discriminate.
+Qed.
+
+Definition ex2_cur : emap :=
+  [(id_a, mkE id_a 0 (Some 0) ANone); (id_b, mkE id_b 0 None ANone); ([99], mkE [99] 0 (Some 2) ANone)].
+Definition ex2_des : emap := new_entries [(id_a, Some 0); (id_b, Some 1); ([100], Some 3)].
+Example C16_ex_planner_hyps2 :
+  NoDup (keys ex2_cur) /\ NoDup (keys ex2_des) /\ Permutation [id_b; id_a; [99]] (keys ex2_cur) /\
+  (* changed entry without a server *)
+  (lookup id_b ex2_cur = Some (mkE id_b 0 None ANone) /\ dcfg ex2_des id_b = Some 1 /\ 0 <> 1) /\
+  (* removed running entry *)
+  (lookup [99] ex2_cur = Some (mkE [99] 0 (Some 2) ANone) /\ dcfg ex2_des [99] = None) /\
+  (* new id *)
+  (lookup [100] ex2_des = Some (mkE [100] 3 None AStart) /\ lookup [100] ex2_cur = None) /\
+  In ([100], mkE [100] 3 None AStart) (build_pending true [id_b; id_a; [99]] ex2_cur ex2_des).
+Proof.
+  split; [vm_compute; repeat constructor; cbn; intuition discriminate|].
+  split; [vm_compute; repeat constructor; cbn; intuition discriminate|].
+  split; [apply perm_swap|].
+  repeat split; try reflexivity; try discriminate. vm_compute. auto 6.
+Qed.
+
+(* protocol theorems at an idle point, not cancelled (C16_running_are_recorded, C16_count,
+   C16_count_bounds, C16_round_converges conjuncts 1-3 and 5, C16_serverless_only_after_cancel,
+   C16_idle_is_running, C16_update_never_ignored): colliding ids, a restart, a failed start *)
+Definition ex_idle_schedule : list label :=
+  [LOffer [(id_a, Some 0); (id_a_stop, Some 0)]; LRecv []; LFactory id_a 0 0 BReady; LRunCall 0; LReady;
+   LFactory id_a_stop 0 1 BReady; LReady;
+   LOffer [(id_a, Some 1); (id_a_stop, Some 0); ([99], Some 2)]; LRecv [id_a; id_a_stop];
+   LStopCall 0; LStopRet 0; LFactoryErr [99] 2; LFactory id_a 1 2 BReady; LReady].
+Example C16_ex_idle_hyps :
+  exists s, run (step true) (init false) ex_idle_schedule = Some s /\
+            s_pc s = PIdle /\ idle_pc (s_pc s) = true /\ s_cancel s = false /\
+            lookup id_a (s_entries s) = Some (mkE id_a 1 (Some 2) ANone) /\
+            dcfg (s_des s) [99] = Some 2 /\ In [99] (s_failed s) /\
+            lookup id_a_stop (s_base s) = Some (mkE id_a_stop 0 (Some 1) ANone) /\
+            dcfg (s_des s) id_a_stop = Some 0 /\
+            In (2, (id_a, 1)) (s_live s) /\ In (1, (id_a_stop, 0)) (s_live s).
+Proof. eexists. split; [vm_compute; reflexivity|]. repeat split; vm_compute; auto. Qed.
+
+(* ... with a map waiting on the siphon (premises of the second part of C16_update_never_ignored) *)
+Example C16_ex_offer_hyps :
+  exists s s', run (step true) (init false) (firstn 8 ex_idle_schedule) = Some s /\ s_pc s = PIdle /\
+               s_offer s = Some [(id_a, Some 1); (id_a_stop, Some 0); ([99], Some 2)] /\
+               step true s (LRecv [id_a; id_a_stop]) = Some s'.
+Proof. eexists. eexists. split; [vm_compute; reflexivity|]. repeat split. Qed.
+
+(* conjunct 4 of C16_round_converges: an idle point with an entry that has no server (restart delay cut
+   short by cancellation) *)
+Definition ex_cancel_schedule : list label :=
+  [LOffer [(id_a, Some 0)]; LRecv []; LFactory id_a 0 0 BReady; LReady;
+   LOffer [(id_a, Some 1)]; LCancel; LRecv [id_a]; LStopCall 0; LStopRet 0; LDelayCancel].
+Example C16_ex_cancel_hyps :
+  exists s, run (step true) (init true) ex_cancel_schedule = Some s /\ s_pc s = PIdle /\
+            lookup id_a (s_entries s) = Some (mkE id_a 1 None ANone) /\ s_cancel s = true /\
+            s_live s = [] /\ count (s_entries s) = 1%nat.
+Proof. eexists. split; [vm_compute; reflexivity|]. repeat split. Qed.
+
+(* C16_none_leaked / C16_idle_is_running (finished) : C16_ex_schedule above reaches PRet.
+   C16_old_stopped_before_replacement: a schedule split at the second factory call for id a, with an
+   earlier factory call for a in the first part *)
+Example C16_ex_history_hyps :
+  exists s, run (step true) (init false) (firstn 12 ex_idle_schedule ++ LFactory id_a 1 2 BReady :: [LReady]) = Some s /\
+            In (LFactory id_a 0 0 BReady) (firstn 12 ex_idle_schedule) /\
+            In (LStopRet 0) (firstn 12 ex_idle_schedule).
+Proof. eexists. split; [vm_compute; reflexivity|]. split; vm_compute; auto 12. Qed.
